@@ -237,6 +237,7 @@ class ProbeError(Exception):
 
 
 P_ID = ("probe.P", 11, 22)
+Q_ID = ("probe.Q", 12, 23)
 K_ID = ("probe.K", 33, 0)
 OBJ_ID = ("probe.Obj", 44, 55)
 SVC_ID = ("probe.Svc", 66, 77)
@@ -302,9 +303,14 @@ def gen_recorded():
     errors = []
 
     # ---- 1. the live call sites, against an auto-responder built on the reference codec
-    state = {"buf": b"", "buffiter": 0, "seen": []}
+    def make_responder(root_id):
+        state = {"buf": b"", "buffiter": 0, "seen": []}
 
-    def responder(data):
+        def responder(data):
+            return _respond(state, root_id, data)
+        return responder, state
+
+    def _respond(state, root_id, data):
         state["buf"] += data
         back = b""
         while True:
@@ -322,7 +328,7 @@ def gen_recorded():
             if h == H["PING"]:
                 res = R.box_value(R.unbox_plain(boxed)[0])
             elif h == H["GETROOT"]:
-                res = R.box_remote(P_ID)
+                res = R.box_remote(root_id)
             elif h == H["INSPECT"]:
                 res = R.box_value(P_METHODS if R.unbox_plain(boxed)[0][2] != 0 else ())
             elif h in (H["HASH"],):
@@ -347,6 +353,7 @@ def gen_recorded():
             back += R.frame(R.encode(R.reply(seq, res)))
         return back
 
+    responder, state = make_responder(P_ID)
     st = _ProbeStream(responder)
     conn = rpyc.VoidService()._connect(channel.Channel(st, True), dict(QUIET))
     sites = []
@@ -389,16 +396,54 @@ def gen_recorded():
         probe("del-class", lambda: hold.pop("k"))
     obj = type("Obj", (), {"____id_pack__": OBJ_ID})()
     probe("call-with-object", lambda: p(obj, (1, obj)))
+    probe("async-call-kw", lambda: rpyc.async_(p)(1, b=2))
+    probe("timed-call-kw", lambda: rpyc.timed(p, 5)(2, c=(3,)))
+    # a proxy that belongs to ANOTHER connection
+    responder_b, _state_b = make_responder(Q_ID)
+    conn_b = rpyc.VoidService()._connect(channel.Channel(_ProbeStream(responder_b), True), dict(QUIET))
+    try:
+        foreign = conn_b.root
+    except Exception as ex:  # noqa
+        raise Inexpressible("second connection's root: %r" % (ex,))
+    probe("call-with-foreign-proxy", lambda: p(foreign))
     # ---- 2. `_box`
     boxes = []
     for name, o in (("plain", (1, "a", (2.5, None))), ("tuple", (5, obj)), ("nested", (p, ("k", obj), b"")),
-                    ("object", obj), ("proxy", p)):
+                    ("object", obj), ("proxy", p), ("foreign-proxy", foreign), ("tuple-with-foreign-proxy", (p, foreign))):
         try:
             boxes.append((name, conn._box(o)))
         except Exception as ex:  # noqa
             errors.append("box %s: %s" % (name, type(ex).__name__))
+    # ---- 2b. `_unbox` (the object and the proxy above are known to the connection by now)
+    unboxed = []
+    for name, b in (("value", (consts.LABEL_VALUE, (1, "a"))),
+                    ("tuple", (consts.LABEL_TUPLE, ((consts.LABEL_VALUE, 5), (consts.LABEL_VALUE, b"x")))),
+                    ("local-ref", (consts.LABEL_LOCAL_REF, OBJ_ID)),
+                    ("remote-ref-known", (consts.LABEL_REMOTE_REF, P_ID)),
+                    ("nested", (consts.LABEL_TUPLE, ((consts.LABEL_LOCAL_REF, OBJ_ID), (consts.LABEL_TUPLE, ((consts.LABEL_REMOTE_REF, P_ID),))))),
+                    ("unknown-local-ref", (consts.LABEL_LOCAL_REF, ("no.Such", 1, 2))),
+                    ("label-9", (9, None)), ("label-0", (0, None)), ("label-true", (True, 7)), ("not-a-pair", (1, 2, 3))):
+        try:
+            got = conn._unbox(b)
+
+            def describe(x):
+                if x is obj:
+                    return "the-object"
+                if x is p:
+                    return "the-proxy"
+                if type(x) is tuple:
+                    return "(" + " ".join(describe(y) for y in x) + ")"
+                return "value"
+            unboxed.append((name, b, describe(got)))
+        except Exception as ex:  # noqa
+            unboxed.append((name, b, "err " + type(ex).__name__))
     conn._remote_root = None
     hold.clear()
+    foreign = None
+    try:
+        conn_b.close()
+    except Exception:  # noqa
+        pass
     probe("del", lambda: None)
     before = len(state["seen"])
     o = None
@@ -412,9 +457,16 @@ def gen_recorded():
     L.append("]")
     L.append("")
     L.append("/-- `Connection._box` on: a dumpable value, a tuple holding an object, a tuple holding the connection's own")
-    L.append("proxy %s, a nested tuple and a byte string, an object with id_pack %s, the proxy -/" % (P_ID, OBJ_ID))
+    L.append("proxy %s, a nested tuple and a byte string, an object with id_pack %s, the proxy," % (P_ID, OBJ_ID))
+    L.append("a proxy of ANOTHER connection %s (it is an object like any other: REMOTE_REF), a tuple of both proxies -/" % (Q_ID,))
     L.append("def boxed : List (String × Val) := [")
     L.append(",\n".join("  (%s, %s)" % (lean_str(n), lean_val(v)) for n, v in boxes))
+    L.append("]")
+
+    L += ["", "/-- `Connection._unbox` on boxed values (name, boxed value, what came out: `value`, `the-object` = the very object",
+          "boxed before, `the-proxy` = the existing proxy, a tuple of those, or the exception) -/",
+          "def unboxed : List (String × Val × String) := ["]
+    L.append(",\n".join("  (%s, %s, %s)" % (lean_str(n), lean_val(b), lean_str(o)) for n, b, o in unboxed))
     L.append("]")
 
     # ---- 3. what `_dispatch_request` sends back
